@@ -218,7 +218,8 @@ Qed.
    the other slots (op_checksigadd_schnorr skips verification and leaves the counter unchanged) *)
 Definition sig_slot_ok (x sg : bytes) : Prop :=
   so_xonly_ok so x = true /\
-  (sg = [] \/ so_schnorr so x (fst (schnorr_split sg)) (snd (schnorr_split sg)) = Ok true).
+  (sg = [] \/ (schnorr_form_ok sg = true /\
+               so_schnorr so x (fst (schnorr_split sg)) (snd (schnorr_split sg)) = Ok true)).
 Definition nonempty_item (sg : bytes) : bool := match sg with [] => false | _ => true end.
 
 Lemma count_ok_canonical keys sigs :
@@ -228,7 +229,8 @@ Proof.
   cbn [count_ok]. rewrite IH. unfold pair_ok. rewrite Hx. cbn [negb].
   destruct sg as [|g0 g].
   - cbn [bind filter nonempty_item]. f_equal.
-  - destruct Hs as [Hs|Hs]; [discriminate Hs|]. rewrite Hs. cbn [bind filter nonempty_item].
+  - destruct Hs as [Hs|[Hf Hs]]; [discriminate Hs|]. rewrite Hf. cbn [negb]. rewrite Hs.
+    cbn [bind filter nonempty_item].
     rewrite zlen_cons. reflexivity.
 Qed.
 
